@@ -3,6 +3,8 @@ import JominiModel.Spec.Writer
 import JominiModel.Proofs.Writer
 import JominiModel.Spec.WriterFlat
 import JominiModel.Proofs.WriterFlat
+import JominiModel.Spec.WriterNested
+import JominiModel.Proofs.WriterNested
 /-
 C15 — Well-formed sequences of writer calls parse back to exactly what was written.
 Only property theorems live here; helper lemmas are in `Proofs/Writer.lean`, reference
@@ -281,6 +283,29 @@ example :
       (State.init 32 2)).1.out =
     .ok [.unquoted ⟨14, [97]⟩, .quoted ⟨11, [120, 92, 34, 121]⟩, .unquoted ⟨5, [98]⟩, .operator .lt,
          .unquoted ⟨1, [99]⟩] false := by
+  decide +kernel
+
+/-- `C15_lexemes` for nested objects, to any depth and for every indent byte and factor: a call
+list that writes root fields whose values are scalars (`write_unquoted` / `write_quoted`) or
+non-empty objects (`write_object_start … write_end`), with implicit or explicit operators, produces
+exactly `textRoot`: every field on its own line behind `depth × factor` indent bytes (none and no
+newline before the very first), `key<sep>value`, `{` directly after the separator, the closing
+`}` on its own line at the indentation of the enclosing level. -/
+theorem C15_lexemes_nested (fs : NFields) (c : UInt8) (f : Nat) :
+    (run (ncallsF fs) (State.init c f)).1.out = textRoot c f fs := by
+  cases fs with
+  | nil => rfl
+  | cons k o v r =>
+    have hi : Inv (State.init c f) c f 0 := ⟨rfl, rfl, rfl, by simp [State.init], rfl, rfl⟩
+    have := (runF c f (.cons k o v r) 0 (State.init c f) hi (Or.inl rfl) (by intro h; cases h)).1
+    simpa [State.init, textRoot] using this
+
+/-- `a={ b<"x" c={ d=e } }` with tab × 1 -/
+example : (run (ncallsF (.cons (.unq [97]) none
+      (.obj (.unq [98]) (some .lt) (.scal (.quo [120]))
+        (.cons (.unq [99]) none (.obj (.unq [100]) none (.scal (.unq [101])) .nil) .nil)) .nil))
+    (State.init 9 1)).1.out =
+    [97, 61, 123, 10, 9, 98, 32, 60, 32, 34, 120, 34, 10, 9, 99, 61, 123, 10, 9, 9, 100, 61, 101, 10, 9, 125, 10, 125] := by
   decide +kernel
 
 /-
